@@ -1300,7 +1300,7 @@ func convConc(t_dst, t_src types.Type, x value) value {
 		if s, ok := x.(string); ok {
 			switch ut_dst := ut_dst.(type) {
 			case *types.Slice:
-				var res []value
+				res := []value{} // a converted string is never a nil slice
 				switch ut_dst.Elem().Underlying().(*types.Basic).Kind() {
 				case types.Rune:
 					for _, r := range []rune(s) {
